@@ -107,6 +107,15 @@ def drive (body impl : String) : Verdict :=
         let f08 : List String :=
           (if igot ≠ "" ∧ igot ≠ toString p then [s!"[param] resume {ent}: body received {igot}, resumed with {p}"] else []) ++
           (if ires == "PANIC" ∧ res ≠ .panic then [s!"[unwound] resume {ent} unwound into the caller"] else []) ++
+          -- what the body yields is what the resume reports: value and wake-up time of a timed yield
+          (match co.prog.head?, (if co.done ∨ co.inCancel then none else some ()) with
+           | some (.until_ y ts), some _ =>
+             if res == .state (.suspend y ts) ∧ th.ts = [] ∧ th.cn = [] ∧ ires.startsWith "Susp" ∧ ires ≠ s!"Susp({y},{ts})" then
+               [s!"[yield-misreported] resume {ent}: the body yielded until_with({y}, {ts}), the resume reported {ires}"] else []
+           | some (.delay y dl), some _ =>
+             if res == .state (.suspend y (min U64MAX (th.now + dl))) ∧ th.ts = [] ∧ th.cn = [] ∧ ires.startsWith "Susp" ∧ ires ≠ s!"Susp({y},{min U64MAX (th.now + dl)})" then
+               [s!"[yield-misreported] resume {ent}: the body yielded delay_with({y}, {dl}) at time {th.now}, the resume reported {ires}"] else []
+           | _, _ => []) ++
           -- outside coroutines the thread has no current suspender — also after a body panicked
           (if (words io).contains "cur=1" then [s!"[stale-current-suspender] after resume {ent} ({ires}) the thread still has a current suspender although no coroutine is running"] else [])
         -- C09: a plain suspend reports time 0 and not cancelled; a timed one its own time
